@@ -19,7 +19,7 @@ def run(rep, known):
     out.mkdir(parents=True, exist_ok=True)
     harness = V.build_harness("C01_design")
     driver = V.build_model("NM")
-    n, BUDGET = (48, 300000) if rep.tier == "quick" else (240, 2500000)
+    n, BUDGET = (48, 300000) if rep.tier == "quick" else (160, 800000)
     designs = [memgen.gen_mem_design(rep.seed * 400009 + i, f"m{i}") for i in range(n)]
     ids = [d[0].split()[1] for d in designs]
     prog = dict(zip(ids, designs))
